@@ -415,7 +415,7 @@ def generate(ctx):
         yield "eye", {"N": N, "M": M, "k": rng.randint(-13, 13), "chunks": rng.choice([rng.randint(1, 14), "auto", "16B", "64B"]),
                       "dtype": rng.choice(["f8", "i8", "bool", "f4"])}
     # --- arange: integers (function level) -------------------------------------------------------
-    for _ in range(ctx.n(500, 6000)):
+    for _ in range(ctx.n(380, 6000)):
         a, b = rng.randint(-20, 20), rng.randint(-20, 30)
         s = rng.choice([1, 1, 2, 3, 5, 7, -1, -2, -3, -7, 0]) if rng.random() < 0.9 else rng.randint(-40, 40)
         n = max(0, -((a - b) // s)) if s else 0
@@ -423,7 +423,7 @@ def generate(ctx):
                          "dtype": rng.choice([None, None, "i8", "f8", "i4"])}
     # --- arange: fractional steps aimed at length-rounding edges -------------------------------------
     dens = [10, 3, 7, 100, 1000, 9, 6, 64]
-    for _ in range(ctx.n(400, 5000)):
+    for _ in range(ctx.n(300, 5000)):
         d = rng.choice(dens)
         sgn = rng.choice([1, 1, 1, -1])
         sn = rng.randint(1, 9) * sgn
@@ -437,7 +437,7 @@ def generate(ctx):
         yield "arange", {"start": [a, d] if a % d else a // d, "stop": [b, d], "step": [sn, d],
                          "chunks": rng.choice([1, 2, 3, 4, 5, 7, 11, "auto"]), "dtype": rng.choice([None, None, "f8", "f4"])}
     # --- linspace ------------------------------------------------------------------------------------
-    for _ in range(ctx.n(300, 4000)):
+    for _ in range(ctx.n(240, 4000)):
         num = rng.choice([0, 1, 2, 3, 5, 8, 13, 50]) if rng.random() < 0.7 else rng.randint(0, 60)
         if rng.random() < 0.5:
             a, b = rng.randint(-50, 50), rng.randint(-50, 50)
